@@ -17,6 +17,7 @@ frame=Some vs frame=None`, `[C03] plan vs no plan`; `oracle_fails_for(ck, "C02")
 import binascii
 import os
 import re
+import subprocess
 import tempfile
 
 from common import DRIVER, HARNESS, LEAN, MachineryError, VERIF, sh
@@ -95,6 +96,12 @@ FEATURES = [
     # the call chain holds a same-named local / parameter; a same-named function in a more recent, lexically
     # unrelated scope
     ("shadowed_capture", r"do whole\(\)"), ("fn_name_shadow", r"do host\(\)"),
+    # definitions in dead code reached through hoisting: the hand-written idiom (a jump, then `do late(q)` ..) and
+    # the generator's own functions defined after the final jump of their block (marker comment)
+    ("dead_def_idiom", r"do (?:late|inner|tail|after)\(q\) start"),
+    ("dead_def_hoisted", r"# hoisted-after-jump"),
+    # one string literal with the same placeholder at least twice; the C04 idiom around it
+    ("placeholder_twice", r"\{\s*(\w+)\s*\}[^\"'\n]*\{\s*\1\s*\}"), ("placeholder_twice_idiom", r"do show\(v\)"),
 ]
 FEATURES = [(n, re.compile(r)) for n, r in FEATURES]
 
@@ -138,26 +145,30 @@ def classify(ck, label, reqs, res):
     return info
 
 
-def corpus_requests(ck):
-    if not os.path.isdir(CORPUS):
-        return []
-    p = sh([ck.nvh(), FAMILY, "gen", "--kind", "files", "--dir", CORPUS], timeout=600)
-    if p.returncode != 0:
-        raise MachineryError("corpus request generation failed: " + p.stderr.decode(errors="replace")[-500:])
-    reqs = p.stdout.decode().splitlines()
-    # plus recorded request lines (minimised past failures)
-    for fn in sorted(os.listdir(CORPUS)):
-        if fn.endswith(".req"):
-            reqs += [l for l in open(os.path.join(CORPUS, fn)).read().splitlines() if l.strip()]
+def corpus_requests(ck, extra_dirs=()):
+    """Requests of every `*.ns` program (and recorded `*.req` line) of corpus/run and of the property
+    corpora named in `extra_dirs` (e.g. ("C06",) -> corpus/C06)."""
+    reqs = []
+    for d in [CORPUS] + [os.path.join(VERIF, "corpus", x) for x in extra_dirs]:
+        if not os.path.isdir(d):
+            continue
+        p = sh([ck.nvh(), FAMILY, "gen", "--kind", "files", "--dir", d], timeout=600)
+        if p.returncode != 0:
+            raise MachineryError("corpus request generation failed: " + p.stderr.decode(errors="replace")[-500:])
+        reqs += p.stdout.decode().splitlines()
+        # plus recorded request lines (minimised past failures)
+        for fn in sorted(os.listdir(d)):
+            if fn.endswith(".req"):
+                reqs += [l for l in open(os.path.join(d, fn)).read().splitlines() if l.strip()]
     return reqs
 
 
-def run_streams(ck, tier, kinds=("corpus", "main", "product"), bias=None, scale=1.0, n_main=None):
+def run_streams(ck, tier, kinds=("corpus", "main", "product"), bias=None, scale=1.0, n_main=None, corpus_dirs=()):
     """Returns {kind: {"requests", "res" (ck.corr result), "info" (classify result)}}."""
     out = {}
     for kind in kinds:
         if kind == "corpus":
-            reqs = corpus_requests(ck)
+            reqs = corpus_requests(ck, corpus_dirs)
         elif kind == "main":
             n = n_main if n_main is not None else int((1500 if tier == "quick" else 60000) * scale)
             args = ["--kind", "main", "--n", n]
@@ -197,8 +208,15 @@ def oracle_fails_for(ck, prop):
     return [f for f in ck.oracle_fails if f.get("family") == FAMILY and f.get("what", "").startswith(f"[{prop}]")]
 
 
-def one_case(ck, src, allow_process=False):
-    """(request, impl answer, model answer, oracle-fail lines) for one program text."""
+UNBOUNDED = "out=none end=unbounded"
+
+
+def one_case(ck, src, allow_process=False, guard=False):
+    """(request, impl answer, model answer, oracle-fail lines) for one program text.
+    `guard` (for shrinking predicates): the MODEL runs first, with a short time limit; when it does not finish
+    (fuel, time) the candidate does not terminate — a deletion removed the step statement of a loop — and it
+    is not run on the implementation at all (that would cost the case timeout, a minute, per candidate): both
+    answers are then `UNBOUNDED`, i.e. equal and not a crash."""
     with tempfile.TemporaryDirectory(dir=os.path.join(VERIF, ".cache", "tmp")) as d:
         with open(os.path.join(d, "case.ns"), "w") as f:
             f.write(src)
@@ -208,10 +226,20 @@ def one_case(ck, src, allow_process=False):
         p = sh(args, timeout=120)
         req = p.stdout.decode().splitlines()[0]
     inp = (req + "\n").encode()
-    impl = sh([ck.nvh(), FAMILY, "run"], inp=inp, timeout=300)
-    mod = sh([DRIVER, FAMILY], inp=inp, timeout=300)
+    if guard and req.startswith("run "):
+        try:
+            mod = sh([DRIVER, FAMILY], inp=inp, timeout=10)
+        except subprocess.TimeoutExpired:
+            return req, UNBOUNDED, UNBOUNDED, []
+        ml = mod.stdout.decode(errors="replace").splitlines()
+        if not ml or ml[0].endswith("end=fuel"):
+            return req, UNBOUNDED, UNBOUNDED, []
+        impl = sh([ck.nvh(), FAMILY, "run"], inp=inp, timeout=300)
+    else:
+        impl = sh([ck.nvh(), FAMILY, "run"], inp=inp, timeout=300)
+        mod = sh([DRIVER, FAMILY], inp=inp, timeout=300)
+        ml = mod.stdout.decode(errors="replace").splitlines()
     il = impl.stdout.decode(errors="replace").splitlines()
-    ml = mod.stdout.decode(errors="replace").splitlines()
     fails = [l for l in impl.stderr.decode(errors="replace").splitlines() if l.startswith("ORACLE-FAIL")]
     return req, (il[0] if il else "?"), (ml[0] if ml else "?"), fails
 
@@ -246,7 +274,7 @@ def report_disagreements(ck, prop_note, streams):
     allow = " pol=a " in first["request"]
 
     def still(s):
-        _r, a, b, _f = one_case(ck, s, allow)
+        _r, a, b, _f = one_case(ck, s, allow, guard=True)
         return a != b and a != "rejected"
 
     small = shrink_program(ck, src, still) if len(src) < 6000 else src
